@@ -185,3 +185,44 @@ def compare_query(ctx, env, compiled, m, source=None):
     if valid_spell(spell_of(env)) and m["relex"] != {"ok": m["ptoks"]}:
         # inside the model: lexing the printed text does not give the printed tokens (obligation lex_pstr)
         ctx.mismatch("lex.pstr.relex (model-internal: theorem lex_pstr)", inp, m["relex"], m["ptoks"])
+
+
+def _norm_ast(x):
+    """AST differences that cannot affect evaluation: an omitted slice step (the model keeps what was written)"""
+    if isinstance(x, dict):
+        if x.get("s") == "slice" and x.get("c") is None:
+            x = {**x, "c": 1}
+        return {k: _norm_ast(v) for k, v in x.items()}
+    if isinstance(x, list):
+        return [_norm_ast(v) for v in x]
+    return x
+
+
+def run_compile(ctx, env, texts, label="lex.compile"):
+    """The composed model of compile(text) - lexer, literal decoding, parser - against the implementation's compile:
+    whenever the implementation accepts a text, the model accepts it too and yields the same query. (The model is
+    deliberately more permissive: it does not model the typing gate, integer limits or leading zeros.)"""
+    texts = [t for t in dict.fromkeys(texts) if encodable(t)]
+    keep, asts = [], []
+    for t in texts:
+        try:
+            c = env.compile(t)
+        except Exception:  # noqa: BLE001
+            continue
+        if _has_bare_slice(c):
+            continue
+        try:
+            q = astdump.dump_query(c)
+        except (core.Unencodable, Exception):  # noqa: BLE001
+            continue
+        keep.append(t)
+        asts.append({"first": q["first"], "rest": [[op, p] for op, p in q["rest"]]})
+    sp = spell_of(env)
+    outs = ctx.driver.run([{"op": "lex.compile", "text": t, "spell": sp, "uword": uword(t)} for t in keep], jobs=ctx.jobs)
+    for t, want, m in zip(keep, asts, outs):
+        if m.get("err") == "outside":
+            ctx.count("lex:compile-outside")
+            continue
+        ctx.count("lex:compiled")
+        if "ok" not in m or _norm_ast(m["ok"]) != _norm_ast(want):
+            ctx.mismatch(label, {"text": t, "spell": sp}, want, m.get("ok", m))
